@@ -1349,6 +1349,21 @@ def _read(ck: Checker, prog: Program):
                          (bad or f"`{pname}` is not both broadcast (single value) and taken per file (sequence)") +
                          f": a per-recording `{pname}` would be handed whole to every file (or a single value iterated)", loc=f.loc(lp))
     ck.floor("C07.R5", n, 2, "broadcast decisions in read()")
+    # ---- the files themselves: the sequence given, in the order given (a single name wrapped in a list)
+    FN = T0.sym(f.params[0])
+    okf, seenf = True, []
+    for l in leaves:
+        env, _nc = l.snaps[id(lp)]
+        v = Translator(env=env).tr(lp.iter.args[0])
+        seenf.append(v)
+        if v not in (FN, sp.Tuple(FN)):
+            okf = False
+    if okf:
+        ck.ok("C07.R5", q, "the files are visited in the order given", nontrivial=False)
+    else:
+        badv = [str(x) for x in seenf if x not in (FN, sp.Tuple(FN))][0]
+        ck.violation("C07.R5", q, "order of the files", f"the files are visited as `{badv[:100]}`, not in the order given: the recordings come back in another order and "
+                     f"per-recording options / orientations are paired with other files", loc=f.loc(lp))
     # ---- forwarding
     g = prog.func("data_wrangler.read_single")
     tg = [unparse(e) for e in lp.target.elts]
